@@ -10,6 +10,12 @@ mod trace;
 mod xval;
 mod checks_e1;
 mod units;
+mod hist;
+mod total;
+mod leak;
+
+#[global_allocator]
+static GLOBAL: leak::Counting = leak::Counting;
 
 fn usage() -> ! {
     eprintln!("usage: verif-harness <C01..C18> <quick|thorough>\n       verif-harness --replay <file>");
@@ -36,6 +42,49 @@ fn main() {
         }
         return;
     }
+    if args.len() >= 7 && args[1] == "--child" {
+        // --child <proto> <T> <prefix hex> <repeat hex> <stack KiB> [mutators: none|unsafe]  (C09 big-T runs, no tracing)
+        let p: u8 = args[2].parse().unwrap();
+        let t: usize = args[3].parse().unwrap();
+        let mut data = lexer::unhex(&args[4]);
+        let rep = lexer::unhex(&args[5]);
+        let kib: usize = args[6].parse().unwrap();
+        while !rep.is_empty() && data.len() < t * rep.len() + 64 {
+            data.extend_from_slice(&rep);
+        }
+        let mut cfg = run::Cfg::new(p).flags(true, true).range(t, t);
+        if args.get(7).map(|s| s.as_str()) == Some("unsafe") {
+            cfg = cfg.muts(&run::Mk::ALL, 0.5, true);
+        }
+        std::panic::set_hook(Box::new(|i| eprintln!("child panic: {i}")));
+        let h = std::thread::Builder::new()
+            .stack_size(kib * 1024)
+            .spawn(move || {
+                let t0 = std::time::Instant::now();
+                let mut g = cfg.build();
+                let r = g.generate_from_arbitrary(&data);
+                let n = r.as_ref().map(|b| b.len()).unwrap_or(0);
+                let ok = r.is_ok();
+                drop(r);
+                drop(g); // teardown of the simulated object graph is part of the call's cost
+                (ok, n, t0.elapsed().as_secs_f64())
+            })
+            .unwrap();
+        match h.join() {
+            Ok((true, n, secs)) if n > 0 => {
+                println!("CHILD-OK bytes={n} secs={secs:.3}");
+                std::process::exit(0);
+            }
+            Ok((ok, n, _)) => {
+                println!("CHILD-BAD ok={ok} bytes={n}");
+                std::process::exit(3);
+            }
+            Err(_) => {
+                println!("CHILD-PANIC");
+                std::process::exit(4);
+            }
+        }
+    }
     if args.len() < 3 {
         usage();
     }
@@ -46,6 +95,9 @@ fn main() {
     }
     let code = match prop {
         "C01" | "C02" | "C03" | "C05" | "C17" | "C04" | "C06" | "C10" => checks_e1::check(prop, tier),
+        "C08" => hist::c08(tier),
+        "C09" => total::c09(tier),
+        "C14" => leak::c14(tier),
         "C15" => checks_e1::check_c15(tier),
         "C16" => units::c16(tier),
         "C18" => units::c18(tier),
